@@ -12,6 +12,7 @@
   larger than the name it was made from (`∀ n, n < prime n`: "x" < "x_prime" as strings).
 -/
 import Y0.Lemmas.LatentOfMG
+import Y0.Lemmas.LatentSimplify
 
 namespace Y0.LV
 open MG
@@ -60,5 +61,73 @@ example :
     let fresh := fun i => 100 + i
     (ofMG fresh G).latent = [101, 102] ∧
     ((ofMG fresh G).toMG?.toOption.map (fun H => H.equiv G)) = some true := by decide
+
+/-! ## 2. Evans simplification
+
+`hp : ∀ n, n < prime n` is the only fact about names that is used: a primed name is a longer string. -/
+
+/-- **Observed nodes are kept** (exactly: none lost, none gained, no observed node re-tagged). -/
+theorem simplify_keeps_observed (prime : Nat → Nat) (hp : ∀ n, n < prime n) (D : LV) (hw : D.WF)
+    (ha : D.Acyclic) (r : SimplifyResults) (h : D.simplify prime = .ok r) (v : Nat) :
+    r.graph.Observed v ↔ D.Observed v :=
+  (simplify_spec prime hp D hw ha r h).2.2.2.obs v
+
+/-- the result is again a well-formed acyclic LV-DAG, and it is fully simplified: every latent is
+exogenous with at least two children, all observed, and no latent's child set is contained in another's -/
+theorem simplify_simplified (prime : Nat → Nat) (hp : ∀ n, n < prime n) (D : LV) (hw : D.WF)
+    (ha : D.Acyclic) (r : SimplifyResults) (h : D.simplify prime = .ok r) :
+    r.graph.WF ∧ r.graph.Acyclic ∧ r.graph.Simplified :=
+  ⟨(simplify_spec prime hp D hw ha r h).1, (simplify_spec prime hp D hw ha r h).2.1,
+    (simplify_spec prime hp D hw ha r h).2.2.1⟩
+
+/-- every rule, hence the whole simplification, preserves the latent projection (relationally:
+same observed nodes, same `u → v`, same `u ↔ v`) -/
+theorem simplify_sameProj (prime : Nat → Nat) (hp : ∀ n, n < prime n) (D : LV) (hw : D.WF)
+    (ha : D.Acyclic) (r : SimplifyResults) (h : D.simplify prime = .ok r) : SameProj D r.graph :=
+  (simplify_spec prime hp D hw ha r h).2.2.2
+
+/-- **Projection.** The mixed graph read off the simplified DAG is exactly the latent projection of the
+ORIGINAL DAG onto its observed nodes. -/
+theorem simplify_projection (prime : Nat → Nat) (hp : ∀ n, n < prime n) (D : LV) (hw : D.WF)
+    (ha : D.Acyclic) (r : SimplifyResults) (h : D.simplify prime = .ok r) :
+    ∃ G, r.graph.toMG? = .ok G ∧ IsProjection D G := by
+  obtain ⟨w, _, s, sp⟩ := simplify_spec prime hp D hw ha r h
+  obtain ⟨G, hG, hp'⟩ := fromLV_is_projection r.graph w s.flat
+  exact ⟨G, hG, IsProjection.of_sameProj sp hp'⟩
+
+/-- one lemma per rule, as named in DESIGN.md -/
+theorem rule1_exogenise_sameProj (prime : Nat → Nat) (hp : ∀ n, n < prime n) (D D1 : LV) (hw : D.WF)
+    (ha : D.Acyclic) (h : D.transformLatentsWithParents prime = .ok D1) : SameProj D D1 :=
+  (transform_spec prime hp D D1 hw ha h).2.2.1
+
+theorem rule2_widows_sameProj (D : LV) (S : List Nat) (hS : ∀ s ∈ S, s ∈ D.latent)
+    (hW : ∀ s ∈ S, ∀ c, ¬ D.Edge s c) : SameProj D (D.removeNodes S) :=
+  removeWidows_sameProj D S hS hW
+
+theorem rule3_unidirectional_sameProj (D D' : LV) (us : List Nat)
+    (h : D.removeUnidirectionalLatents = .ok (D', us)) (hw : D.WF) (hf : D.Flat)
+    (hch : ∀ l ∈ D.latent, ∃ c, D.Edge l c) : SameProj D D' :=
+  (removeUnidirectionalLatents_spec D D' us h hw hf hch).2.2.1
+
+theorem rule4_redundant_sameProj (D D' : LV) (rs : List Nat)
+    (h : D.removeRedundantLatents = .ok (D', rs)) (hw : D.WF) (hf : D.Flat)
+    (htwo : ∀ l ∈ D.latent, 2 ≤ (D.children l).length) : SameProj D D' :=
+  (removeRedundantLatents_spec D D' rs h hw hf htwo).2.1
+
+/-- **Consequence for every verdict computed from the projected graph** (d- or m-separation tests,
+identifiability, implied independencies …): any function of mixed graphs that respects
+`NxMixedGraph.__eq__` gives the same answer on the graph read off the simplified DAG as on any latent
+projection of the original DAG. -/
+theorem verdict_invariant {β : Type} (f : MG Nat → β) (hf : ∀ G H : MG Nat, G.equiv H = true → f G = f H)
+    (prime : Nat → Nat) (hp : ∀ n, n < prime n) (D : LV) (hw : D.WF) (ha : D.Acyclic)
+    (r : SimplifyResults) (h : D.simplify prime = .ok r) (G0 : MG Nat) (hG0 : IsProjection D G0) :
+    ∃ G, r.graph.toMG? = .ok G ∧ f G = f G0 := by
+  obtain ⟨G, hG, hp'⟩ := simplify_projection prime hp D hw ha r h
+  exact ⟨G, hG, hf G G0 (hp'.equiv hG0)⟩
+
+/-- a fully simplified LV-DAG is a fixed point: nothing is reported, nothing changes -/
+theorem simplified_fixed (prime : Nat → Nat) (D : LV) (hw : D.WF) (hs : D.Simplified) (ls : List Nat)
+    (hls : D.iterLatents = .ok ls) : D.simplify prime = .ok ⟨D, [], [], []⟩ :=
+  simplify_fixed prime D hw hs ls hls
 
 end Y0.LV
